@@ -363,6 +363,37 @@ func dumpFiles(files map[string]string) string {
 
 func init() { reg("c16", checkC16) }
 
+var badDictKinds = []string{"dangling-attribute", "dangling-extends", "cycle-1", "cycle-2", "cycle-3", "lasso-1", "lasso-2", "lasso-display", "cycle-via-display", "unnamed-chord", "unnamed-attribute"}
+
+// badDictExtra returns the entries that make a dictionary inconsistent in the given way.
+func badDictExtra(bad string) ([]UChord, []UAttr) {
+	switch bad {
+	case "dangling-attribute":
+		return []UChord{{Name: "BadA", Display: "bada", Attrs: []string{"Perfect1", "NoSuchAttribute"}}}, nil
+	case "dangling-extends":
+		return []UChord{{Name: "BadE", Display: "bade", Attrs: []string{"Perfect1"}, Extends: "NoSuchChord"}}, nil
+	case "cycle-1":
+		return []UChord{{Name: "Cyc1", Display: "cyc1", Attrs: []string{"Perfect1"}, Extends: "Cyc1"}}, nil
+	case "cycle-2":
+		return []UChord{{Name: "Cyc1", Display: "cyc1", Attrs: []string{"Perfect1"}, Extends: "Cyc2"}, {Name: "Cyc2", Display: "cyc2", Extends: "Cyc1"}}, nil
+	case "cycle-3":
+		return []UChord{{Name: "Cyc1", Display: "cyc1", Extends: "Cyc2"}, {Name: "Cyc2", Display: "cyc2", Attrs: []string{"Major3"}, Extends: "Cyc3"}, {Name: "Cyc3", Display: "cyc3", Extends: "Cyc1"}}, nil
+	case "lasso-1": // a chord outside the cycle leads into it
+		return []UChord{{Name: "Lead", Display: "lead", Attrs: []string{"Major3"}, Extends: "Cyc1"}, {Name: "Cyc1", Display: "cyc1", Attrs: []string{"Perfect1"}, Extends: "Cyc1"}}, nil
+	case "lasso-2":
+		return []UChord{{Name: "Lead", Display: "lead", Extends: "Mid"}, {Name: "Mid", Display: "mid", Attrs: []string{"Perfect5"}, Extends: "Cyc1"}, {Name: "Cyc1", Display: "cyc1", Extends: "Cyc2"}, {Name: "Cyc2", Display: "cyc2", Attrs: []string{"Perfect1"}, Extends: "Cyc1"}}, nil
+	case "lasso-display": // the link into the cycle goes through a display symbol
+		return []UChord{{Name: "Lead", Display: "lead", Attrs: []string{"Major3"}, Extends: "cyc1"}, {Name: "Cyc1", Display: "cyc1", Attrs: []string{"Perfect1"}, Extends: "cyc1"}}, nil
+	case "cycle-via-display":
+		return []UChord{{Name: "CycA", Display: "cyca", Attrs: []string{"Perfect1"}, Extends: "cycb"}, {Name: "CycB", Display: "cycb", Extends: "cyca"}}, nil
+	case "unnamed-chord":
+		return []UChord{{Name: "", Display: "noname", Attrs: []string{"Perfect1"}}}, nil
+	case "unnamed-attribute":
+		return nil, []UAttr{{Name: "", IV: IV{3, int(theory.Major)}}}
+	}
+	return nil, nil
+}
+
 // overridable built-ins: nothing else builds on them
 var leafBuiltins = []string{"sus2", "add9", "6", "m6", "7sus4", "mM9", "m9", "maj9", "maj7", "augM7", "dim7", "m7b5"}
 
@@ -398,7 +429,7 @@ func genDict(t *rapid.T) (Dict, []string) {
 	nc := rapid.IntRange(1, 8).Draw(t, "nchord")
 	var chords []UChord
 	var usable []string
-	var parents []string
+	var parents, parentDisplays []string
 	for i := 0; i < nc; i++ {
 		var c UChord
 		if coin(t, "override-chord", 15) {
@@ -409,14 +440,23 @@ func genDict(t *rapid.T) (Dict, []string) {
 		}
 		c.Attrs = pickAttrs()
 		if coin(t, "extends", 60) || len(c.Attrs) == 0 {
+			byDisplay := coin(t, "parent-by-display", 35)
 			if len(parents) > 0 && rapid.Bool().Draw(t, "user-parent") {
-				c.Extends = rapid.SampledFrom(parents).Draw(t, "parent")
+				k := rapid.IntRange(0, len(parents)-1).Draw(t, "parent")
+				c.Extends = parents[k]
+				if byDisplay {
+					c.Extends = parentDisplays[k]
+				}
 			} else {
-				c.Extends = theory.LongNames[rapid.SampledFrom(theory.Displays).Draw(t, "bparent")]
+				bp := rapid.SampledFrom(theory.Displays[1:]).Draw(t, "bparent")
+				c.Extends = theory.LongNames[bp]
+				if byDisplay {
+					c.Extends = bp
+				}
 			}
 		}
 		// an overriding chord must not extend something that (transitively) is itself
-		if c.Extends == c.Name {
+		if c.Extends == c.Name || c.Extends == c.Display {
 			c.Extends = "MajorTriad"
 		}
 		chords = append(chords, c)
@@ -428,6 +468,7 @@ func genDict(t *rapid.T) (Dict, []string) {
 		}
 		if !dup {
 			parents = append(parents, c.Name)
+			parentDisplays = append(parentDisplays, c.Display)
 		}
 		usable = append(usable, c.Name, c.Display)
 	}
@@ -505,7 +546,7 @@ func TestC16(t *testing.T) {
 		r.Check(t, checkC16(c), "c16", c)
 	}
 	r.MarkExhaustive("23 built-in chords by name and display; every built-in attribute; gen attr vs embedded list")
-	bads := []string{"dangling-attribute", "dangling-extends", "cycle-1", "cycle-2", "cycle-3", "unnamed-chord", "unnamed-attribute"}
+	bads := badDictKinds
 	cmds := []string{"write", "write-event", "chord-describe", "attr-describe"}
 	rapid.Check(t, func(t *rapid.T) {
 		d, usable := genDict(t)
@@ -542,22 +583,9 @@ func TestC16(t *testing.T) {
 		bd := Dict{AttrFiles: append([][]UAttr{}, d.AttrFiles...), ChordFiles: append([][]UChord{}, d.ChordFiles...)}
 		usesBad := rapid.Bool().Draw(t, "piece-uses-bad-entry")
 		played := use
-		var extra []UChord
-		switch bad {
-		case "dangling-attribute":
-			extra = []UChord{{Name: "BadA", Display: "bada", Attrs: []string{"Perfect1", "NoSuchAttribute"}}}
-		case "dangling-extends":
-			extra = []UChord{{Name: "BadE", Display: "bade", Attrs: []string{"Perfect1"}, Extends: "NoSuchChord"}}
-		case "cycle-1":
-			extra = []UChord{{Name: "Cyc1", Display: "cyc1", Attrs: []string{"Perfect1"}, Extends: "Cyc1"}}
-		case "cycle-2":
-			extra = []UChord{{Name: "Cyc1", Display: "cyc1", Attrs: []string{"Perfect1"}, Extends: "Cyc2"}, {Name: "Cyc2", Display: "cyc2", Extends: "Cyc1"}}
-		case "cycle-3":
-			extra = []UChord{{Name: "Cyc1", Display: "cyc1", Extends: "Cyc2"}, {Name: "Cyc2", Display: "cyc2", Attrs: []string{"Major3"}, Extends: "Cyc3"}, {Name: "Cyc3", Display: "cyc3", Extends: "Cyc1"}}
-		case "unnamed-chord":
-			extra = []UChord{{Name: "", Display: "noname", Attrs: []string{"Perfect1"}}}
-		case "unnamed-attribute":
-			bd.AttrFiles = append(bd.AttrFiles, []UAttr{{Name: "", IV: IV{3, int(theory.Major)}}})
+		extra, extraAttrs := badDictExtra(bad)
+		if extraAttrs != nil {
+			bd.AttrFiles = append(bd.AttrFiles, extraAttrs)
 		}
 		if extra != nil {
 			bd.ChordFiles = append(bd.ChordFiles, extra)
